@@ -52,6 +52,13 @@ def generate(rng, tier):
     if rng.random() < 0.002:
         return _big_case(rng)
     nrow = gen.gen_nrow(rng, big=(tier == "thorough"))
+    r_ = rng.random()
+    if r_ < 0.012:
+        nrow = rng.choice([255, 256, 257])        # exact boundaries of narrow integer types (ranks, codes, indices stored in 8 / 16 bits)
+        tags.add("boundary-size")
+    elif r_ < 0.0128:
+        nrow = rng.choice([65535, 65536, 65537])
+        tags.add("boundary-size")
     nkey = rng.choice([1, 1, 2, 2, 3])
     spec = [("_rid_", "int", list(range(nrow)))]
     keys = []
@@ -124,7 +131,12 @@ def _execute(case, edit):
     if edit is not None:
         col, pos, newv = edit
         try:
-            df.sort(**dict(keys)); df.unique(col); df.split(col)
+            r0 = df.sort(**dict(keys)); df.unique(col); df.split(col)
+            if pos % 2 == 0 and nrow:
+                # the judged receiver is itself the RESULT of a sort by the same keys, edited in place afterwards
+                np.asarray(dict.__getitem__(r0, "_rid_"))[:] = np.arange(nrow)
+                df = r0
+                res.cls("resort-of-edited-sort-result")
         except Exception:
             pass
         arr = np.asarray(dict.__getitem__(df, col))
